@@ -184,8 +184,9 @@ def main():
                 per_obl.append({'obligation': it['item'], 'backend': 'verus/z3', 'status': 'refuted' if it['item'] in refuted else
                                 ('undecided' if it['item'] in undecided else 'discharged'),
                                 'solver_ms': max([res.times[k][0] for k in bn], default=None), 'rlimit': max([res.times[k][1] for k in bn], default=None)})
+            ieee_items = set(i['item'] for i in res.items if 'ieee-ops-named' in (i.get('rewrites') or []))
             for key, fl in refuted.items():
-                violations.append({'backend': 'verus', 'obligation': key, 'failures': fl})
+                violations.append({'backend': 'verus', 'obligation': key, 'failures': fl, 'ieee_structural': key in ieee_items})
             known_lines += res.kf_lines
             if res.kf_gone:
                 ev['known_findings_no_longer_reproduced'] = res.kf_gone
@@ -262,6 +263,12 @@ def main():
                     v['counterexample'] = kanirun.playback_only(REPO, v['obligation'].split('::', 1)[1], os.path.join(workroot, 'kani_playback'))
                 except Exception as e:      # never let the playback break the verdict
                     v['counterexample'] = None
+            if v.get('ieee_structural') and not (found and found.get('input')):
+                # a contract over uninterpreted IEEE operations is syntactic (x*k and k*x are different terms): a failed
+                # proof with a clean native search is not a refutation -> undecided, never an alarm
+                undecided_all[v['obligation']] = [{'kind': 'proof-failed-over-uninterpreted-ieee-operations-native-search-clean',
+                                                   'message': (found or {}).get('domain', '')}]
+                continue
             if found and found.get('exhaustive') and not found.get('input') and v['backend'] == 'verus':
                 # the whole domain of the function was replayed natively without a failing input:
                 # the proof attempt failed but the property demonstrably holds -> undecided, not an alarm
